@@ -91,6 +91,8 @@ theorem one_worker_per_task {s : State} (hr : Reachable s) {a b : Worker} {tid :
   rw [ha'] at hb'
   exact Option.some.inj hb'
 
+example : (assignedState.workers.filter (fun w => w.task = some 1)).length = 1 := by decide
+
 /-- **`Inv.queued`, exclusion.**  A queued task has no worker and no response. -/
 theorem queued_excl {s : State} (hr : Reachable s) {tid : Nat} {t : Task} (ht : s.task? tid = some t)
     (hq : t.queued = true) : t.worker = none ∧ t.response = none :=
